@@ -381,8 +381,11 @@ class _GenerateRenderMethod:
         self.printer.writeline("def _mako_generate_namespaces(context):")
 
         for node in namespaces.values():
+            # known before any def inside a <%namespace> tag is written
             if "import" in node.attributes:
                 self.compiler.has_ns_imports = True
+
+        for node in namespaces.values():
             self.printer.start_source(node.lineno)
             if len(node.nodes):
                 self.printer.writeline("def make_namespace():")
@@ -404,7 +407,11 @@ class _GenerateRenderMethod:
                                 "<%namespace>",
                                 **node.exception_kwargs,
                             )
-                        self.write_inline_def(node, identifiers, nested=False)
+                        # not enclosed by a render callable: the def
+                        # collects the imported names itself
+                        self.write_inline_def(
+                            node, identifiers, nested=False, toplevel=True
+                        )
                         export.append(node.funcname)
 
                 vis = NSDefVisitor()
@@ -604,7 +611,7 @@ class _GenerateRenderMethod:
         )
         self.printer.writeline(None)
 
-    def write_inline_def(self, node, identifiers, nested):
+    def write_inline_def(self, node, identifiers, nested, toplevel=False):
         """write a locally-available def callable inside an enclosing def."""
 
         namedecls = node.get_argument_expressions()
@@ -630,7 +637,7 @@ class _GenerateRenderMethod:
 
         identifiers = identifiers.branch(node, nested=nested)
 
-        self.write_variable_declares(identifiers)
+        self.write_variable_declares(identifiers, toplevel=toplevel)
 
         self.identifier_stack.append(identifiers)
         for n in node.nodes:
